@@ -485,10 +485,10 @@ func (st *State) branch(cond string, thenF, elseF func(*State) []Outcome) []Outc
 	}
 	base := st.facts
 	s1 := st.clone()
-	s1.facts = s1.facts.push(guarded(s1.guard, cond))
+	s1.addFact(guarded(s1.guard, cond))
 	o1 := thenF(s1)
 	s2 := st.clone()
-	s2.facts = s2.facts.push(guarded(s2.guard, sNot(cond)))
+	s2.addFact(guarded(s2.guard, sNot(cond)))
 	o2 := elseF(s2)
 	// merge when both sides fall through with a single normal outcome
 	var n1, n2 []Outcome
@@ -559,9 +559,9 @@ func mergeStates(orig *State, base *flist, cond string, a, b *State) *State {
 			continue
 		}
 		if isDefinition(f) {
-			m.facts = m.facts.push(f)
+			m.addFact(f)
 		} else {
-			m.facts = m.facts.push(sImp(cond, f))
+			m.addFact(sImp(cond, f))
 		}
 	}
 	nc := sNot(cond)
@@ -570,9 +570,9 @@ func mergeStates(orig *State, base *flist, cond string, a, b *State) *State {
 			continue
 		}
 		if isDefinition(f) {
-			m.facts = m.facts.push(f)
+			m.addFact(f)
 		} else {
-			m.facts = m.facts.push(sImp(nc, f))
+			m.addFact(sImp(nc, f))
 		}
 	}
 	// variables
